@@ -219,11 +219,13 @@ def _rx_of(eng, key_val):
 def sp_rxm(eng, st, key, line):
     """line is in the language of the live class's shipped pattern."""
     rx = _rx_of(eng, key)
+    eng.apply_rx_facts(rx)
     return V.vbool(rx.match(eng.as_sym(line).d))
 
 
 def sp_rxg(eng, st, key, i, line):
     rx = _rx_of(eng, key)
+    eng.apply_rx_facts(rx)
     return V.vstr(rx.group[V.concrete_int(eng.as_sym(i).d)](eng.as_sym(line).d))
 
 
@@ -296,6 +298,11 @@ def sp_opaque(eng, st, name, *vals):
     return V.vbool(f(*ls))
 
 
+def sp_callee_ghost(eng, st, name):
+    """Ghost result `name` of the most recent contract call (for threading ghost results up)."""
+    return eng.last_ghost_results[name.d.as_string()]
+
+
 def sp_alt(eng, st, u, i):
     """The i-th alternative of a union value (meaningful when its tag is i)."""
     u = eng.as_sym(u)
@@ -311,6 +318,7 @@ def register(reg):
     f["append"] = sp_append
     f["empty_ints"] = sp_empty_ints
     f["slice"] = sp_slice
+    f["callee_ghost"] = sp_callee_ghost
     f["opaque"] = sp_opaque
     f["alt"] = sp_alt
     f["tag"] = sp_tag
